@@ -218,3 +218,38 @@ Example C16_pin_naming :
   mem_str "import" kwlist = true /\ mem_str "get" kwlist = false.
 Proof. exact pin_naming. Qed.
 Print Assumptions C16_pin_naming.
+
+(* the resource table (Proto.resource_messages of every file, first declaring file wins): when all the
+   declarations of a type name the same address -- in particular when the type is declared once -- the
+   lookup does not depend on the order of the files of the request *)
+Theorem C16_res_lookup_order_free : forall g g' t,
+  Permutation.Permutation g g' -> res_agree g t -> res_lookup g t = res_lookup g' t.
+Proof. exact res_lookup_order_free. Qed.
+Print Assumptions C16_res_lookup_order_free.
+
+(* the hypothesis holds of a graph with a resource message and an unrelated file-level definition *)
+Example C16_ex_res_agree :
+  res_agree [rt_res; mkFile "x.proto" true [] [] [] [("example.googleapis.com/Annex", "")]] rt_type /\
+  res_lookup [rt_res; mkFile "x.proto" true [] [] [] [("example.googleapis.com/Annex", "")]] rt_type = Some (P "Shelf").
+Proof. exact ex_res_agree. Qed.
+Print Assumptions C16_ex_res_agree.
+
+(* without it the lookup does depend on the order: the API of c16_util.resource_twice_api (type declared by
+   the message Shelf in resources.proto and again at file level in library.proto) *)
+Example C16_ex_res_lookup_order :
+  Permutation.Permutation [rt_res; rt_lib] [rt_lib; rt_res] /\ ~ res_agree [rt_res; rt_lib] rt_type /\
+  res_lookup [rt_res; rt_lib] rt_type = Some (P "Shelf") /\ res_lookup [rt_lib; rt_res] rt_type = Some "".
+Proof. exact ex_res_lookup_order. Qed.
+Print Assumptions C16_ex_res_lookup_order.
+
+(* REFUTED (finding selective.resource_declared_twice_file_level_first): a kept RPC that references a resource type
+   does not always keep the message carrying the type. When an earlier file declares the type at file level, the
+   reference resolves to the address-less synthetic message and the real resource message, with everything
+   only it leads to, is pruned; with the same files in the other order it is kept *)
+Theorem C16_resource_reference_keeps_message_refuted :
+  exists g f, In f g /\ In (rt_type, P "Shelf") (fi_res f) /\ rt_kept g (P "DeleteShelfRequest") = true /\
+              rt_kept g (P "Shelf") = false /\ rt_kept g (P "Theme") = false /\
+              rt_kept (rev g) (P "Shelf") = true /\ rt_kept (rev g) (P "Shelf.Row") = true /\
+              rt_kept (rev g) (P "Theme") = true /\ rt_kept (rev g) (P "Finish") = true.
+Proof. exact resource_reference_keeps_message_refuted. Qed.
+Print Assumptions C16_resource_reference_keeps_message_refuted.
